@@ -1108,6 +1108,9 @@ static inline rci_t split_round(rci_t n, rci_t k) {
   return ((half + (k - 1)) / k) * k;
 }
 
+static void _mzd_transpose(word *RESTRICT fwd, word const *RESTRICT fws, wi_t rowstride_dst,
+                           wi_t rowstride_src, rci_t nrows, rci_t ncols, rci_t maxsize);
+
 static void _mzd_transpose_notsmall(word *RESTRICT fwd, word const *RESTRICT fws, wi_t rowstride_dst, 
                             wi_t rowstride_src, rci_t nrows, rci_t ncols, rci_t maxsize) {
   assert(maxsize >= 64);
@@ -1124,8 +1127,8 @@ static void _mzd_transpose_notsmall(word *RESTRICT fwd, word const *RESTRICT fws
         word *RESTRICT fwd_right = fwd + offset; 
         rci_t maxsize_up = MAX(large_size, ncols);
         rci_t maxsize_down = MAX(nrows - large_size, ncols);
-        _mzd_transpose_notsmall(fwd_left, fws_up, rowstride_dst, rowstride_src, large_size, ncols, maxsize_up);
-        _mzd_transpose_notsmall(fwd_right, fws_down, rowstride_dst, rowstride_src, nrows - large_size, ncols, maxsize_down);
+        _mzd_transpose(fwd_left, fws_up, rowstride_dst, rowstride_src, large_size, ncols, maxsize_up);
+        _mzd_transpose(fwd_right, fws_down, rowstride_dst, rowstride_src, nrows - large_size, ncols, maxsize_down);
       } else {
         word const *RESTRICT fws_left = fws; 
         word const *RESTRICT fws_right = fws + offset;
@@ -1133,8 +1136,8 @@ static void _mzd_transpose_notsmall(word *RESTRICT fwd, word const *RESTRICT fws
         word *RESTRICT fwd_down = fwd + large_size * rowstride_dst; 
         rci_t maxsize_left = MAX(nrows, large_size);
         rci_t maxsize_right = MAX(nrows, ncols - large_size);
-        _mzd_transpose_notsmall(fwd_up, fws_left, rowstride_dst, rowstride_src, nrows, large_size, maxsize_left);
-        _mzd_transpose_notsmall(fwd_down, fws_right, rowstride_dst, rowstride_src, nrows, ncols - large_size, maxsize_right);
+        _mzd_transpose(fwd_up, fws_left, rowstride_dst, rowstride_src, nrows, large_size, maxsize_left);
+        _mzd_transpose(fwd_down, fws_right, rowstride_dst, rowstride_src, nrows, ncols - large_size, maxsize_right);
     }
   }
 }
